@@ -36,7 +36,7 @@ def main():
     checks = opt("--checks", prop).split(",")
     budget = opt("--budget", "70")
     needs = opt("--needs", "")
-    out = os.path.join(HERE, "seeded", prop)
+    out = os.path.join(HERE, "seeded", opt("--out", prop))
     os.makedirs(out, exist_ok=True)
     env = dict(os.environ, PYTHONPATH=os.path.join(wt, "src"))
     if "--rerun" in args:
